@@ -81,6 +81,12 @@ func (c *c06) Enabled() []seqx.Event {
 				x := seqx.Ev("Dup", int64(p), int64(seq))
 				x.N = fmt.Sprintf("Dup(%c,seq %d)", 'A'+p, seq)
 				ev = append(ev, x)
+				if c.realID(p, seq) != "" {
+					// the duplicate overtakes the notification of the entry's retention timer, which has just fired
+					y := seqx.Ev("Dup", int64(p), int64(seq), 1)
+					y.N = fmt.Sprintf("DupOvertakingExpiry(%c,seq %d)", 'A'+p, seq)
+					ev = append(ev, y)
+				}
 				continue
 			}
 			for k := 0; k < nKinds-1; k++ {
@@ -329,6 +335,10 @@ func (c *c06) Apply(e seqx.Event) seqx.StepResult {
 	case "Dup":
 		p, seq := int(e.A[0]), uint32(e.A[1])
 		ref := c.rx[rxKey(p, seq)]
+		overtaking := len(e.A) > 2 && e.A[2] == 1 && !c.W.Dead
+		if overtaking {
+			c.W.V.FireOnlyRx(c.realID(p, seq))
+		}
 		d0 := c.W.V.Dump(pfcp.DumpOpt{NoTrans: true, NoExtra: true}) + c.W.D.Dump()
 		o = c.W.Send(p, ref.req)
 		if j.Crashed(c.W, o) {
@@ -354,6 +364,11 @@ func (c *c06) Apply(e seqx.Event) seqx.StepResult {
 				j.Fail("duplicate-not-reanswered-identically:"+kindName[ref.kind], "duplicate of %s(seq %d) from %c: want one byte-identical copy of the original response, got %d datagram(s) %v", kindName[ref.kind], seq, 'A'+p, len(ms), ms)
 			}
 			j.Tag("dup-reanswered")
+		}
+		if overtaking && len(j.Viols) == 0 {
+			r2 := c.Apply(seqx.Ev("Expire", int64(p)*16+int64(seq)))
+			j.Viols = append(j.Viols, r2.Viols...)
+			j.Tag("dup-overtakes-expiry")
 		}
 	case "ExpireTx":
 		p, seq := int(e.A[0]/16), uint32(e.A[0]%16)
